@@ -78,273 +78,13 @@ type getSite struct {
 	ArrObj   types.Object // the array variable
 	Top      bool         // the array is the decoded top-level tuple (`var arr _array`, filled by Decode), not a nested one
 	Index    int64
-	If       *ast.IfStmt
+	IdxParam int      // >= 0: the index is that parameter of the enclosing helper (summaries only)
+	At       ast.Node // the statement that reads the element
 	Var      types.Object
 	Fields   []string // struct fields assigned in the body (receiver or local struct variable)
 	ElseErr  bool
 	NilGuard bool
 	Decoder  string
-}
-
-func collectGetSites(p *core.Prog, f *core.Func, body ast.Node) []getSite {
-	info := f.Pkg.TypesInfo
-	var out []getSite
-	// getCall: `v, ok := ARR.Get(<const>)`
-	getCall := func(st ast.Stmt) (*ast.AssignStmt, *ast.SelectorExpr, int64, bool) {
-		as, ok := st.(*ast.AssignStmt)
-		if !ok || len(as.Rhs) != 1 || len(as.Lhs) != 2 {
-			return nil, nil, 0, false
-		}
-		c, ok := core.Unparen(as.Rhs[0]).(*ast.CallExpr)
-		if !ok || len(c.Args) != 1 {
-			return nil, nil, 0, false
-		}
-		sel, ok := core.Unparen(c.Fun).(*ast.SelectorExpr)
-		if !ok || sel.Sel.Name != "Get" || core.NamedTypeName(info.TypeOf(sel.X)) != "ipld/ipldbindcode._array" {
-			return nil, nil, 0, false
-		}
-		idx, isC := core.ConstInt(info, c.Args[0])
-		if !isC {
-			return nil, nil, 0, false
-		}
-		return as, sel, idx, true
-	}
-	returnsErr := func(n ast.Node) bool {
-		found := false
-		ast.Inspect(n, func(k ast.Node) bool {
-			if rt, ok := k.(*ast.ReturnStmt); ok && len(rt.Results) >= 1 && !core.IsNil(info, rt.Results[len(rt.Results)-1]) {
-				found = true
-			}
-			return true
-		})
-		return found
-	}
-	// analyse: assigned fields, nil guard, decoder of the statements that handle the value (not descending into nested Get
-	// sites of another array)
-	analyse := func(gs *getSite, nodes []ast.Node) {
-		for _, nd := range nodes {
-			ast.Inspect(nd, func(k ast.Node) bool {
-				switch x := k.(type) {
-				case *ast.IfStmt:
-					if x != gs.If {
-						if x.Init != nil {
-							if _, _, _, isGet := getCall(x.Init); isGet {
-								return false // nested positional decode (SlotMeta, Shredding): collected separately
-							}
-						}
-						for _, cj := range conjuncts(x.Cond) {
-							if v, eq, isNil := core.NilCompare(info, cj); isNil && !eq {
-								if vo := core.ObjOf(info, v); vo != nil && gs.Var != nil && (vo == gs.Var || vo.Name() == gs.Var.Name()) {
-									gs.NilGuard = true
-								}
-							}
-						}
-					}
-				case *ast.AssignStmt:
-					for _, l := range x.Lhs {
-						if ls, ok := core.Unparen(l).(*ast.SelectorExpr); ok {
-							if _, isStruct := derefStruct(info.TypeOf(ls.X)); isStruct {
-								gs.Fields = append(gs.Fields, ls.Sel.Name)
-							}
-						}
-					}
-				case *ast.CallExpr:
-					nm := core.CalleeName(info, x)
-					// the element is handed to a helper of the package that stores it: x.appendShreddingFromAny(v)
-					if fo := core.Callee(info, x); fo != nil && gs.Var != nil {
-						if h := p.ByObj[fo.Origin()]; h != nil && h.Body != nil && h.Pkg == f.Pkg && h != f {
-							passes := false
-							for _, a := range x.Args {
-								if core.ObjOf(info, a) == gs.Var {
-									passes = true
-								}
-							}
-							if passes {
-								hi := h.Pkg.TypesInfo
-								ast.Inspect(h.Body, func(k2 ast.Node) bool {
-									if has, ok := k2.(*ast.AssignStmt); ok {
-										for _, l := range has.Lhs {
-											if ls, ok := core.Unparen(l).(*ast.SelectorExpr); ok {
-												if _, isStruct := derefStruct(hi.TypeOf(ls.X)); isStruct && core.ObjOf(hi, ls.X) == types.Object(h.RecvObj()) {
-													gs.Fields = append(gs.Fields, ls.Sel.Name)
-												}
-											}
-										}
-									}
-									if ta, ok := k2.(*ast.TypeAssertExpr); ok && ta.Type != nil && gs.Decoder == "" && core.ExprStr(ta.Type) == "[]interface{}" {
-										gs.Decoder = "tuple"
-									}
-									return true
-								})
-							}
-						}
-					}
-					resT := ""
-					if tv := info.TypeOf(x); tv != nil {
-						if tup, isTup := tv.(*types.Tuple); isTup && tup.Len() > 0 {
-							resT = core.NamedTypeName(tup.At(0).Type())
-						} else {
-							resT = core.NamedTypeName(tv)
-						}
-					}
-					inPkg := nm != "" && core.ShortPkg(pkgOfName(nm)) == "ipld/ipldbindcode" && !strings.Contains(nm, "_array")
-					switch {
-					case strings.HasSuffix(nm, ".getUint64FromInterface"):
-						gs.Decoder = "Int"
-					case strings.HasSuffix(nm, ".decodeCborLinkListFromAny"), inPkg && strings.HasSuffix(resT, "List__Link"):
-						gs.Decoder = "[Link]"
-					case strings.HasSuffix(nm, ".fromCBORArray"):
-						gs.Decoder = "DataFrame"
-					case strings.HasSuffix(nm, "cid.CidFromBytes"), inPkg && strings.HasSuffix(resT, "linking/cid.Link"):
-						gs.Decoder = "Link"
-					case gs.Decoder == "" && inPkg:
-						gs.Decoder = "call:" + nm[strings.LastIndex(nm, ".")+1:]
-					}
-				case *ast.TypeAssertExpr:
-					if x.Type != nil && gs.Decoder == "" {
-						switch core.ExprStr(x.Type) {
-						case "[]byte":
-							gs.Decoder = "bytes"
-						case "[]interface{}":
-							gs.Decoder = "tuple"
-						}
-					}
-				}
-				return true
-			})
-		}
-	}
-	var walkList func(list []ast.Stmt)
-	var walk func(n ast.Node)
-	walk = func(n ast.Node) {
-		ast.Inspect(n, func(m ast.Node) bool {
-			switch x := m.(type) {
-			case *ast.BlockStmt:
-				walkList(x.List)
-				return false
-			case *ast.CaseClause:
-				walkList(x.Body)
-				return false
-			}
-			return true
-		})
-	}
-	walkList = func(list []ast.Stmt) {
-		for i := 0; i < len(list); i++ {
-			st := list[i]
-			// form A/B: if v, ok := arr.Get(i); ok [&& v != nil] { ... } [else { return err }]
-			if is, ok := st.(*ast.IfStmt); ok && is.Init != nil {
-				if as, sel, idx, isGet := getCall(is.Init); isGet {
-					gs := getSite{Arr: core.ExprStr(sel.X), ArrObj: core.ObjOf(info, sel.X), Index: idx, If: is, Var: core.ObjOf(info, as.Lhs[0])}
-					gs.Top = declaredWithoutValue(f, gs.ArrObj)
-					if is.Else != nil && returnsErr(is.Else) {
-						gs.ElseErr = true
-					}
-					for _, cj := range conjuncts(is.Cond) {
-						if v, eq, isNil := core.NilCompare(info, cj); isNil && !eq && core.ObjOf(info, v) == gs.Var {
-							gs.NilGuard = true
-						}
-					}
-					analyse(&gs, []ast.Node{is.Body})
-					out = append(out, gs)
-					walk(is.Body)
-					continue
-				}
-			}
-			// form D: v, err := helper(arr, ...) - the helper reads arr[i] on the caller's behalf; what the caller does with v
-			// afterwards (up to the next Get) is the handling of that element
-			if as, isAs := st.(*ast.AssignStmt); isAs && len(as.Rhs) == 1 {
-				if hc, isCall := core.Unparen(as.Rhs[0]).(*ast.CallExpr); isCall {
-					if fo := core.Callee(info, hc); fo != nil {
-						if h := p.ByObj[fo.Origin()]; h != nil && h.Body != nil && h.Pkg == f.Pkg && h != f {
-							handled := false
-							for ai, a := range hc.Args {
-								ao := core.ObjOf(info, a)
-								if ao == nil || core.NamedTypeName(ao.Type()) != "ipld/ipldbindcode._array" || h.ParamObj(ai) == nil {
-									continue
-								}
-								for _, hs := range collectGetSites(p, h, h.Body) {
-									if hs.ArrObj != types.Object(h.ParamObj(ai)) {
-										continue
-									}
-									gs := hs
-									gs.ArrObj, gs.Arr = ao, core.ExprStr(a)
-									gs.Top = declaredWithoutValue(f, ao)
-									gs.Var = core.ObjOf(info, as.Lhs[0])
-									var handling []ast.Node
-									for j := i + 1; j < len(list); j++ {
-										if _, _, _, g2 := getCall(list[j]); g2 {
-											break
-										}
-										if is2, isIf2 := list[j].(*ast.IfStmt); isIf2 && is2.Init != nil {
-											if _, _, _, g3 := getCall(is2.Init); g3 {
-												break
-											}
-										}
-										handling = append(handling, list[j])
-									}
-									analyse(&gs, handling)
-									out = append(out, gs)
-									handled = true
-								}
-							}
-							if handled {
-								continue
-							}
-						}
-					}
-				}
-			}
-			// form C: v, ok := arr.Get(i); if !ok { return err }; <the statements that handle v, up to the next Get>
-			if as, sel, idx, isGet := getCall(st); isGet && i+1 < len(list) {
-				okObj := core.ObjOf(info, as.Lhs[1])
-				if nx, isIf := list[i+1].(*ast.IfStmt); isIf && nx.Init == nil {
-					gs := getSite{Arr: core.ExprStr(sel.X), ArrObj: core.ObjOf(info, sel.X), Index: idx, If: nx, Var: core.ObjOf(info, as.Lhs[0])}
-					gs.Top = declaredWithoutValue(f, gs.ArrObj)
-					var handling []ast.Node
-					if u, isNot := core.Unparen(nx.Cond).(*ast.UnaryExpr); isNot && u.Op == token.NOT && core.ObjOf(info, u.X) == okObj && okObj != nil {
-						// absent -> the if body; present -> what follows
-						gs.ElseErr = returnsErr(nx.Body)
-						for j := i + 2; j < len(list); j++ {
-							if _, _, _, g2 := getCall(list[j]); g2 {
-								break
-							}
-							if is2, isIf2 := list[j].(*ast.IfStmt); isIf2 && is2.Init != nil {
-								if _, _, _, g3 := getCall(is2.Init); g3 {
-									break
-								}
-							}
-							handling = append(handling, list[j])
-						}
-					} else if len(conjuncts(nx.Cond)) >= 1 && core.ObjOf(info, conjuncts(nx.Cond)[0]) == okObj && okObj != nil {
-						// present -> the if body
-						if nx.Else != nil && returnsErr(nx.Else) {
-							gs.ElseErr = true
-						}
-						for _, cj := range conjuncts(nx.Cond) {
-							if v, eq, isNil := core.NilCompare(info, cj); isNil && !eq && core.ObjOf(info, v) == gs.Var {
-								gs.NilGuard = true
-							}
-						}
-						handling = []ast.Node{nx.Body}
-					} else {
-						walk(st)
-						continue
-					}
-					analyse(&gs, handling)
-					out = append(out, gs)
-					for _, h := range handling {
-						walk(h)
-					}
-					i++ // the if statement was consumed
-					continue
-				}
-			}
-			walk(st)
-		}
-	}
-	walk(body)
-	return out
 }
 
 func pkgOfName(nm string) string {
@@ -593,22 +333,22 @@ func c11CheckType(r *core.Report, f *core.Func, tn string, schema map[string][]s
 				assigned = true
 			}
 		}
-		r.Check(assigned, rule, key+"#index-to-field", pos(r, s.If), fmt.Sprintf("tuple index %d is decoded into %s.%s", i, tn, goField),
+		r.Check(assigned, rule, key+"#index-to-field", pos(r, s.At), fmt.Sprintf("tuple index %d is decoded into %s.%s", i, tn, goField),
 			fmt.Sprintf("tuple index %d (schema field %s) is decoded into %v instead of %s.%s: two fields are swapped or shifted relative to the schema", i, sf.Name, s.Fields, tn, goField))
-		r.Check(s.ElseErr == !sf.Optional, rule, key+"#required-iff-not-optional", pos(r, s.If), map[bool]string{true: "absence is tolerated (optional field)", false: "absence is an error (required field)"}[sf.Optional],
+		r.Check(s.ElseErr == !sf.Optional, rule, key+"#required-iff-not-optional", pos(r, s.At), map[bool]string{true: "absence is tolerated (optional field)", false: "absence is an error (required field)"}[sf.Optional],
 			map[bool]string{true: "the schema marks " + sf.Name + " optional but the fast decoder fails when it is absent", false: "the schema requires " + sf.Name + " but the fast decoder silently accepts a tuple without it (the reference decoder rejects it)"}[sf.Optional])
 		if sf.Nullable {
 			okNil := s.NilGuard
 			if !okNil && s.Decoder == "[Link]" {
 				okNil = helperNilTolerant(r.Prog, "ipld/ipldbindcode.decodeCborLinkListFromAny")
 			}
-			r.Check(okNil, rule, key+"#null-means-absent", pos(r, s.If), "a null value is skipped (the field stays absent)",
+			r.Check(okNil, rule, key+"#null-means-absent", pos(r, s.At), "a null value is skipped (the field stays absent)",
 				"the schema marks "+sf.Name+" nullable but the fast decoder converts the value without a nil test: a null is decoded as a present value (e.g. 0) while the reference decoder reports it absent")
 		}
 		want := expectedDecoder(sf.Type)
 		got := s.Decoder
 		okDec := want == "" || got == want || (want == "tuple" && (got == "tuple" || got == "DataFrame")) || (want == "DataFrame" && got == "DataFrame")
-		r.Check(okDec, rule, key+"#element-decoder", pos(r, s.If), "decoded as "+got, fmt.Sprintf("schema type %s calls for decoder %q but the fast decoder uses %q", sf.Type, want, got))
+		r.Check(okDec, rule, key+"#element-decoder", pos(r, s.At), "decoded as "+got, fmt.Sprintf("schema type %s calls for decoder %q but the fast decoder uses %q", sf.Type, want, got))
 	}
 }
 
@@ -645,7 +385,47 @@ func helperNilTolerant(p *core.Prog, key string) bool {
 			}
 		}
 	}
-	return false
+	// switch v := p.(type) { case nil: return nil, nil ... }
+	tolerant := false
+	ast.Inspect(f.Body, func(m ast.Node) bool {
+		ts, ok := m.(*ast.TypeSwitchStmt)
+		if !ok {
+			return true
+		}
+		var x ast.Expr
+		switch a := ts.Assign.(type) {
+		case *ast.AssignStmt:
+			if len(a.Rhs) == 1 {
+				if ta, ok := core.Unparen(a.Rhs[0]).(*ast.TypeAssertExpr); ok {
+					x = ta.X
+				}
+			}
+		case *ast.ExprStmt:
+			if ta, ok := core.Unparen(a.X).(*ast.TypeAssertExpr); ok {
+				x = ta.X
+			}
+		}
+		if x == nil || po == nil || core.ObjOf(info, x) != types.Object(po) {
+			return true
+		}
+		for _, cl := range ts.Body.List {
+			cc := cl.(*ast.CaseClause)
+			if len(cc.List) != 1 || !core.IsNil(info, cc.List[0]) || len(cc.Body) == 0 {
+				continue
+			}
+			if rs, ok := cc.Body[0].(*ast.ReturnStmt); ok && len(rs.Results) > 0 && core.IsNil(info, rs.Results[len(rs.Results)-1]) {
+				tolerant = true
+			}
+		}
+		return true
+	})
+	return tolerant
+}
+
+// selRootIdent returns the identifier an expression is (x) or nil.
+func selRootIdent(e ast.Expr) *ast.Ident {
+	id, _ := core.Unparen(e).(*ast.Ident)
+	return id
 }
 
 func c11MarshalAgreement(r *core.Report, mf *core.Func, tn string, sites []getSite) {
@@ -782,11 +562,13 @@ func c11FastDecoders(r *core.Report, kindConst map[string]int64) {
 							continue
 						}
 						c, isCall := core.Unparen(as.Rhs[0]).(*ast.CallExpr)
-						if !isCall || len(c.Args) != 2 {
+						if !isCall {
 							continue
 						}
-						ki, ci := -1, -1
-						for ai, a := range c.Args {
+						// the operands of the helper: its arguments and, for a method, its receiver (index -1)
+						const none = -2
+						ki, ci := none, none
+						note := func(ai int, a ast.Expr) {
 							if strings.HasSuffix(core.ExprStr(stripConvs(info, a)), ".Kind") {
 								ki = ai
 							}
@@ -794,7 +576,15 @@ func c11FastDecoders(r *core.Report, kindConst map[string]int64) {
 								ci = ai
 							}
 						}
-						if ki < 0 || ci < 0 {
+						for ai, a := range c.Args {
+							note(ai, a)
+						}
+						if sel, isSel := core.Unparen(c.Fun).(*ast.SelectorExpr); isSel {
+							if _, isPkg := info.Uses[selRootIdent(sel.X)].(*types.PkgName); !isPkg || sel.X != ast.Expr(selRootIdent(sel.X)) {
+								note(-1, sel.X)
+							}
+						}
+						if ki == none || ci == none {
 							continue
 						}
 						for _, h := range calleesOfCall(p, f, c) {
@@ -1050,7 +840,14 @@ func declaredWithoutValue(f *core.Func, o types.Object) bool {
 // equalityHelper: every success return of h is reached only after its parameters #a and #b were found equal, the other
 // outcome returning an error.
 func equalityHelper(p *core.Prog, h *core.Func, a, b int) bool {
-	pa, pb := h.ParamObj(a), h.ParamObj(b)
+	// index -1 stands for the receiver of h (KindBlock.checkDecoded(node.Kind))
+	pick := func(i int) *types.Var {
+		if i < 0 {
+			return h.RecvObj()
+		}
+		return h.ParamObj(i)
+	}
+	pa, pb := pick(a), pick(b)
 	if pa == nil || pb == nil || h.Body == nil {
 		return false
 	}
